@@ -107,7 +107,7 @@ def random_tape_files(rnd, lengths=None, maxfiles=4):
         name = rnd.choice(["A", "HELLO", "ABCDEFGH", "ABCDEFGHIJKL", "", "U<", "lower", "MiXeD1", "12345678", "X" * rnd.randint(1, 12), "HELLO", "hello", "ABCDEFGHZZ"])
         n = rnd.choice(lengths)
         out.append(mkfile(name, content(rnd, rnd.choice(["ramp", "55", "3c", "marker", "rand", "00"]), n), rnd.choice([0, 1, 2, 3]), rnd.choice([0, 255]),
-                          rnd.choice([0, 0x0E00, 0x553C, 0x3C00, 0x0055, 0xFFFF]), rnd.choice([0, 0x0E00, 0x3C55, 0x5500]), gap=rnd.choice([0, 0, 0, 255])))
+                          rnd.choice([0, 0x0E00, 0x553C, 0x3C00, 0x0055, 0xFFFF]), rnd.choice([0, 0x0E00, 0x3C55, 0x5500, 0x553C, 0x553C]), gap=rnd.choice([0, 0, 0, 255])))
     return out
 
 
